@@ -15,7 +15,8 @@ PID = "C17"
 RULE = ("A program P and a history Q1..Qk (k = 0..6), all drawn from the C13 generators (valid programs, mutated programs, "
         "token programs: accepted, rejected and crashing ones alike, sharing label / EQU names and operand strings so "
         "that a stale cache would be hit). P is assembled (fresh Program object) before the history, after each prefix "
-        "of the history, and twice in a row; in 1 case of 12 also in fresh interpreter processes with PYTHONHASHSEED 0, "
+        "of the history, and twice in a row; in half of the cases the history is assembled first and P only afterwards, "
+        "judged against a fresh interpreter process (a cache in which the first binding wins shows only this way); in 1 case of 12 also in fresh interpreter processes with PYTHONHASHSEED 0, "
         "1 and 12345 (ten hash seeds for the enumerated programs whose EQU definitions depend on each other). Oracle: the canonical result (outcome class, image, every listing line, every symbol line in "
         "order, origin, name, diagnostic text) is identical in all runs; the list of lines passed in equals its copy "
         "afterwards; the module tables (INSTRUCTIONS, REGISTERS, the regular expressions) hash the same before and "
@@ -29,8 +30,16 @@ FLAKY_IS_VIOLATION = True      # a leak changes the process: the same history ru
 EXHAUSTIVE = {}
 
 _prog = st.one_of(c13._valid, c13._mutation, c13._tokens)
-_case = st.builds(lambda p, qs, fresh: dict(p=p["lines"], qs=[q["lines"] for q in qs], fresh=fresh == 0),
-                  _prog, st.lists(_prog, min_size=0, max_size=6), st.integers(0, 11))
+def _mk_case(p, qs, fresh, history_first):
+    case = dict(p=p["lines"], qs=[q["lines"] for q in qs], fresh=fresh == 0)
+    if history_first and qs:
+        # "first binding wins" caches: the history must come before P is ever assembled in this interpreter state, and
+        # the only clean reference is an interpreter that has seen nothing else
+        case.update(history_first=True, fresh=True, hashseeds=[0])
+    return case
+
+
+_case = st.builds(_mk_case, _prog, st.lists(_prog, min_size=0, max_size=6), st.integers(0, 11), st.booleans())
 
 
 def enumerated(tier, seed):
@@ -46,9 +55,11 @@ def enumerated(tier, seed):
     e = [" ORG $0E00\n", "E0 EQU $28\n", " NOP \n", "L0 RMB 8\n", " FDB L0+2,E0*2,0\n", " FCB E0,1,E0+1\n"]
     f = [" ORG $3000\n", "L0 FDB L0+2,E0*2,0\n", "E0 EQU $10\n", " FCB E0,1,E0+1\n"]
     g = [" ORG $0E00\n", "E0 EQU 7\n", " FDB L0+2,E0*2,0\n", " FOO \n", "L0 NOP \n"]
-    for p in (e, f):
-        for qs in ([f], [e], [g], [g, f, e]):
+    h = [" ORG $0100\n", "L0 NOP \n", "E0 EQU L0+3\n", " FDB L0+2,E0*2,0\n", " FCB E0,1,E0+1\n", " FDB E0,L0\n", " FCB 1,2,3\n"]
+    for p in (e, f, h):
+        for qs in ([f], [e], [g], [h], [g, f, e]):
             yield dict(p=p, qs=qs, fresh=False)
+            yield dict(p=p, qs=qs, fresh=True, history_first=True, hashseeds=[0])
     # definitions that depend on each other in every order: the result must not depend on hashing (fresh processes
     # under ten hash seeds)
     defs = ["SCREEN EQU $0400\n", "WIDTH EQU 32\n", "ROW1 EQU SCREEN+WIDTH\n", "ROW2 EQU ROW1+WIDTH\n", "ROW3 EQU ROW2+WIDTH\n",
